@@ -392,10 +392,20 @@ pub fn build_and_log(
 ) -> (Dict, Option<Rc<Vec<u8>>>) {
     let dict = Dict::build(entries.iter().map(|(k, _)| k.clone()).chain(probes.iter().cloned()));
     out.ev(dict.event());
-    let outcome = write_file(cfg, entries);
+    let mut outcome = write_file(cfg, entries);
+    // one random-file scenario in seven of the reader-side families reads a file that the 0.4.7
+    // writer produced for the same content (the corner files keep the writer under test)
+    let mut writer = "current";
+    let idx = crate::files::SCN_IDX.with(|c| c.get());
+    if crate::files::ALLOW_FOREIGN.with(|c| c.get()) && idx % 7 == 5 && idx as usize >= corner_count() && outcome.bytes.is_some() {
+        if let Some(b) = write_file_foreign(cfg, entries) {
+            outcome.bytes = Some(b);
+            writer = "0.4.7";
+        }
+    }
     let keys: Vec<i64> = entries.iter().map(|(k, _)| dict.id(k)).collect();
     out.ev(json!({"ev": "Written", "kind": "list", "keys": keys, "n": keys.len(), "base": 0, "step": 1,
-        "codec": cfg.codec, "levels": cfg.levels, "ver": ver, "cfg": cfg.json(),
+        "codec": cfg.codec, "levels": cfg.levels, "ver": ver, "cfg": cfg.json(), "writer": writer,
         "ins": outcome.ins, "fin": outcome.fin, "detail": outcome.detail,
         "size": outcome.bytes.as_ref().map(|b| b.len()).unwrap_or(0)}));
     let bytes = outcome.bytes.map(|b| if ver == 1 { to_v1(&b) } else { b });
@@ -417,6 +427,16 @@ fn new_session<'a>(out: &'a mut TraceOut, entries: Vec<Entry>, dict: Dict, data:
 /// Deterministic corner files: the first scenarios of every family run on these, so that the
 /// shapes a random draw rarely produces (a lone empty key, 255 index levels, an index level
 /// >= 2 that really fills blocks, entries larger than a block ...) are always covered.
+pub fn corner_count() -> usize {
+    thread_local! { static N: std::cell::Cell<usize> = std::cell::Cell::new(0); }
+    N.with(|n| {
+        if n.get() == 0 {
+            n.set(corner_files().len());
+        }
+        n.get()
+    })
+}
+
 pub fn corner_files() -> Vec<(Cfg, Vec<Entry>)> {
     let c = |codec: u8, bs: usize, k: usize, l: u8| Cfg { codec, level: 0, block_size: bs, interval: k, levels: l };
     let e = |k: &[u8], v: &[u8]| (k.to_vec(), v.to_vec());
